@@ -47,6 +47,8 @@ pub struct HxCfg {
     pub merges: Vec<u8>,
     /// fixed trees merged together with a stray vertex: the call must fail (Op::MergeFail)
     pub merge_fails: Vec<u8>,
+    /// scripts as transitions (Op::Script): 0 = a well-formed one, 1 = one whose fifth command is malformed
+    pub scripts: Vec<u8>,
     pub max_depth: usize,
     pub max_states: usize,
     pub wall: Duration,
@@ -74,6 +76,7 @@ impl HxCfg {
             reload_swap: false,
             merges: vec![],
             merge_fails: vec![],
+            scripts: vec![],
             max_depth: usize::MAX,
             max_states: 30_000_000,
             wall: Duration::from_secs(40),
@@ -130,6 +133,15 @@ impl HxCfg {
                 ops.push(Op::MergeFail(*k, *v));
             }
         }
+        for k in &self.scripts {
+            for a in &self.ids {
+                for b in &self.ids {
+                    if a != b {
+                        ops.push(Op::Script(*k, *a, *b));
+                    }
+                }
+            }
+        }
         ops
     }
 
@@ -151,6 +163,7 @@ impl HxCfg {
             self.probe_names().join(" ")
         ) + &if self.merges.is_empty() { String::new() } else { format!(" merges {:?}", self.merges) }
             + &if self.merge_fails.is_empty() { String::new() } else { format!(" failing merges {:?}", self.merge_fails) }
+            + &if self.scripts.is_empty() { String::new() } else { format!(" scripts {:?} (0 well-formed, 1 failing at its fifth command)", self.scripts) }
             + &if self.seeds.is_empty() { String::new() } else { format!(" seeds {:?}", self.seeds.iter().map(|s| s.0.clone()).collect::<Vec<_>>()) }
     }
 
@@ -525,6 +538,7 @@ fn swap_tag(op: &Op) -> Option<&'static str> {
         Op::CloneSwap | Op::CloneFromSwap => Some("C10"),
         Op::ReloadSwap => Some("C08"),
         Op::Merge(..) => Some("C11"),
+        Op::Script(..) => Some("C14"),
         _ => None,
     }
 }
@@ -555,6 +569,7 @@ pub fn check_transition<const N: usize>(
             Op::ReloadSwap => vec!["C08", "C07"],
             Op::Merge(..) => vec!["C11", "C07"],
             Op::MergeFail(..) => vec!["C12", "C07"],
+            Op::Script(..) => vec!["C14", "C07"],
         };
         out.push(Finding { kind: format!("panic-{}", op_name(op)), tags, detail: format!("{} is within the limits but panicked: {e}", op.text()), aux: None });
         return out;
@@ -575,6 +590,21 @@ pub fn check_transition<const N: usize>(
             out.push(Finding { kind: "early-collection-by-merge".to_string(), tags: vec!["C01", "C02"], detail: format!("{} (refused) removed {lost:?}: only a first read of a datum may remove vertices", op.text()), aux: None });
         }
         return out;
+    }
+    // 1b. scripts: Ok(number of commands) for the well-formed one, Err for the one with a malformed command
+    if let (Op::Script(k, ..), Ok(Ret::Script(r))) = (op, res) {
+        match (k, r) {
+            (0, Ok(4)) | (1..=u8::MAX, Err(_)) => {}
+            (0, Ok(n)) => out.push(Finding::new("script-wrong-count", &["C14"], format!("{} returned {n} for 4 commands", op.text()))),
+            (0, Err(e)) => {
+                out.push(Finding::new("script-well-formed-rejected", &["C14"], format!("{} was rejected: {e}", op.text())));
+                return out;
+            }
+            (_, Ok(n)) => {
+                out.push(Finding::new("script-malformed-accepted", &["C14"], format!("{} returned Ok({n}) although its fifth command is malformed", op.text())));
+                return out;
+            }
+        }
     }
     // 2. model-side complaints (next_id freshness, merge structure)
     for e in model_errs {
@@ -746,6 +776,7 @@ pub fn op_name(op: &Op) -> &'static str {
         Op::CloneFromSwap => "clone_from",
         Op::ReloadSwap => "reload",
         Op::Merge(..) | Op::MergeFail(..) => "merge",
+        Op::Script(..) => "script",
     }
 }
 
@@ -986,6 +1017,8 @@ fn count_transition(c: &mut BTreeMap<&'static str, u64>, m0: &Model, op: &Op, ex
         }
         Op::Merge(..) => bump(c, "merges"),
         Op::MergeFail(..) => bump(c, "refused_merges"),
+        Op::Script(0, ..) => bump(c, "scripts_deployed"),
+        Op::Script(..) => bump(c, "scripts_failing_after_four_commands"),
     }
 }
 
